@@ -229,7 +229,9 @@ pub fn install_fs_hook(artifact_dir: std::path::PathBuf, fault: Option<(usize, F
             if r.artifacts.is_none() {
                 r.artifacts = Some(artifact_map(artifacts));
             }
-            r.ops.push(op_name(op, &artifact_dir));
+            let name = op_name(op, &artifact_dir);
+            crate::sysfault::mark(index, &name);
+            r.ops.push(name);
             if let FileSystemOperation::WriteFile(p, _) = op {
                 r.written.push(p.strip_prefix(&artifact_dir).map(|x| x.to_string_lossy().to_string()).unwrap_or_default());
             }
